@@ -8,6 +8,8 @@
 //! reading.  The `DateTime<Tz>` handed to the API is built in `<input-zone>` (a different zone than
 //! the context's) for the same absolute instant.  Output:
 //!   `Z <init> <n> (<unix s> <offset s>)* [<CTX dump> <AST dump>] | <result>`
+//! evaluator ops: `<result> =N= <wall-clock time(s)> <NoLocation result>`; `tz.next` adds
+//! `=I= <k> <k NoLocation intervals from the wall-clock time>` (as far as the answer needs them).
 //! where `Z…` is the context zone's transition table restricted to ±3 years around the instants of
 //! the line (initial offset = offset in force at the start of that window).
 use crate::ast;
@@ -168,19 +170,40 @@ where
             format!("{r} =N= {} {nv}", ast::instant(n0))
         }),
         "tz.next" => catch(|| match oh.next_change(dt0) {
-            None => "none".to_string(),
+            None => ("none".to_string(), opening_hours::DATE_END),
             Some(c) => {
                 w.add(c.timestamp());
-                format!("some {}", show_abs(&c))
+                (format!("some {}", show_abs(&c)), loc.naive(c.clone()))
             }
         })
-        .map(|r| {
+        .map(|(r, n_ans)| {
             let nv = catch(|| match noloc.next_change(n0) {
                 None => "none".to_string(),
                 Some(c) => format!("some {}", ast::instant(c)),
             })
             .unwrap_or_else(|p| p);
-            format!("{r} =N= {} {nv}", ast::instant(n0))
+            // the NoLocation stream from the wall-clock time, as far as the localized answer needs it
+            // (since /repo dfe1ade the answer is the end of the first range of the stream with the
+            // spans the clock skips dropped and their neighbours merged): every range that starts
+            // at/before the wall-clock time of the answer and the first one that starts after it
+            let ni = catch(|| {
+                let mut out: Vec<String> = Vec::new();
+                let mut k = 0usize;
+                for r in noloc.iter_from(n0) {
+                    k += 1;
+                    out.push(ast::instant(r.range.start));
+                    out.push(ast::instant(r.range.end));
+                    out.push(ast::kind_tok(r.kind).into());
+                    out.push(r.comments.len().to_string());
+                    out.extend(r.comments.iter().map(|c| enc(c)));
+                    if r.range.start > n_ans || k >= ITER_CAP {
+                        break;
+                    }
+                }
+                format!("{k} {}", out.join(" "))
+            })
+            .unwrap_or_else(|p| p);
+            format!("{r} =N= {} {nv} =I= {ni}", ast::instant(n0))
         }),
         _ => {
             let t1 = ast::parse_instant(a[3])?;
